@@ -2,7 +2,7 @@
 import re
 
 from blue import prim as P
-from blue.facts import callee_skey
+from blue.facts import callee_skey, strip_generics
 from . import common as K
 
 EXPLANATION = (
@@ -54,6 +54,8 @@ def rules(ctx):
     C13.c135(ctx)   # an edit is replayed remove-then-add
     C13.c136(ctx)   # a file that may end in a torn edit is rewritten before anything is appended to it
     C13.c138(ctx)   # a handle whose write failed appends nothing more behind the torn edit
+    from . import C12
+    C12.c127(ctx)   # a log builder whose write failed acknowledges nothing more behind the torn frame
 
 
 # ---------------------------------------------------------------------------------------------------
@@ -430,6 +432,25 @@ def path_arg_from(i, helper):
 def c025(ctx):
     R = "C02.5"
     ctx.declare(R, "a log leaves the root only after its SST is sealed, ingested and named by a durable manifest edit")
+    # who may retire a log at all: the flush thread (after the ingest) and recover_one (after the replay).  The manifest's 'L' -- or
+    # anything else -- is no licence to move a log away unread: log numbers restart low after an idle incarnation.
+    allowed = {KVS + "_memtable_thread", KVS + "recover_one"}
+    n = 0
+    for g in sorted(ctx.prog.fns.values(), key=lambda g: g.key):
+        if g.crate != "lsmtk" or not g.skey.startswith("lsmtk::kvs::") or "{closure" in g.skey and False:
+            continue
+        for pt in P.call_points(g, r"^std::fs::(rename|remove_file)$"):
+            t = P.term_at(g, pt)
+            src_calls = P.origin_calls(g, t["args"][0])
+            if any(c.endswith(("lsmtk::TEMP_FILE", "lsmtk::TEMP_ROOT")) for c in src_calls) or any(x["k"] == "call" and x["callee"].endswith("PathBuf::join") and
+                    any(c.endswith("lsmtk::TEMP_ROOT") for c in P.origin_calls(g, x["t"]["args"][0])) for x in P.origins(g, t["args"][0])):
+                continue        # scratch files under tmp/
+            n += 1
+            ctx.check(R, g, "who-may-retire-a-log", strip_generics(g.skey.split("::{closure")[0]) in allowed,
+                      "%s is one of the two places that move a log out of the root" % g.skey,
+                      "%s moves or removes a file of the store root (%s): only the flush thread, after the ingest, and recover_one, after the replay, retire "
+                      "a log -- a log moved away unread takes acknowledged writes with it" % (g.skey, P.short(callee_skey(t))), pt=pt)
+    ctx.floor(R, "places in lsmtk::kvs that move or remove root files", n, 3)
     f = ctx.fn(R, KVS + "_memtable_thread")
     if f:
         sl = ctx.calls(R, f, r"sst::log::ConcurrentLogBuilder::seal$")
@@ -642,7 +663,14 @@ def _uniq_pass(ctx, g):
     fw = P.field_writes(g, r"kvs::WriteBatch$", "entries")
     if not fw:
         return False, "the filtered entries are not stored back into the batch"
-    return True, "entries are kept only when their key is new to a set, and stored back"
+    # the survivor is the *last* write of its key: the entries are visited back to front (an odd number of reversals on the loop's iterator)
+    for pt in ins:
+        heads = [h for h in P.call_points(g, r"Iterator>?::next$") if P.reach(g, P.after(g, h), [pt]) and P.reach(g, P.after(g, pt), [h])]
+        if not heads:
+            return False, "the keys are not inserted in a loop over the entries"
+        if not any(len(re.findall(r"\bRev<", K.loop_iterator_type(g, h))) % 2 == 1 for h in heads):
+            return False, "the entries are visited front to back, so the first write of a key survives, not the last"
+    return True, "entries are visited back to front, kept only when their key is new to a set, and stored back"
 
 
 def c028(ctx):
